@@ -2,18 +2,21 @@ SPECIFICATION Spec
 CONSTANTS U = "quick"
 INVARIANT TypeOK
 INVARIANT PerCell
+INVARIANT TemplateUntouched
 INVARIANT CellsPartition
 INVARIANT Borders
 INVARIANT ComputeZip
+INVARIANT RepeatSame
 INVARIANT OutIsPrefix
 INVARIANT LastIsLastInside
 INVARIANT HistContext
 INVARIANT FlowContexts
 INVARIANT IterOnceEach
 INVARIANT OwnBinsContext
-PROPERTY MutateIsLocal
-PROPERTY FreshWhenYielded
 INVARIANT MapShape
 PROPERTY NoCrossTalk
 PROPERTY OutsideIgnored
+PROPERTY WriteIsLocal
+PROPERTY MutateIsLocal
+PROPERTY FreshWhenYielded
 CHECK_DEADLOCK FALSE
